@@ -101,6 +101,91 @@ def run(prop, tier, seed):
             else:
                 rep["discharged"] += max(1, npanic)
             rep["samples"].append({"method": mod + meth, "paths": len(paths), "panic_paths": npanic, "effect_before_panic": len(bad)})
+    if prop == "C04":
+        # Zero-copy merge in BytesMut::try_unsplit: two handles may only be glued together when they provably lie in ONE
+        # allocation, i.e. both are in the shared form on the same control block.  CBMC cannot model two distinct
+        # allocations at adjacent addresses (objects are never adjacent), so this clause is decided on the path condition:
+        # for every path of try_unsplit that stores to self (len/cap grow), PC /\ not(kind(self)==ARC /\ kind(other)==ARC)
+        # must be unsatisfiable (z3 over the two symbolic `data` words).
+        import z3
+        fs = find_fn(funcs, "bytes_mut::", "try_unsplit", "&mut BytesMut")
+        rep["queries"] += 1
+        if not fs:
+            rep["inconclusive"].append("try_unsplit not found in the MIR dump")
+        else:
+            f = fs[0]
+            rep["functions"].append(f.name)
+            BMF = lambda tag: [("unk", tag + ".ptr"), ("unk", tag + ".len"), ("unk", tag + ".cap"), ("sym", tag + ".data")]
+            w = mirsym.Walker(funcs, consts, max_paths=500)
+            try:
+                paths = w.run(f.name, {1: ("byref_agg", "BytesMut", BMF("self")), 2: ("agg", "BytesMut", BMF("other"))})
+            except mirsym.Unknown as e:
+                rep["inconclusive"].append("%s: %s" % (f.name, e))
+                paths = []
+            zs = {"self.data": z3.BitVec("self_data", 64), "other.data": z3.BitVec("other_data", 64)}
+            def term(v):
+                if v[0] == "const":
+                    return z3.BitVecVal(v[1], 64)
+                if v[0] == "sym":
+                    return zs[v[1]]
+                if v[0] == "and":
+                    t = term(v[1])
+                    return None if t is None else (t & z3.BitVecVal(v[2], 64))
+                return None
+            def cond(g):
+                v, exp = g[1], g[2]
+                if v[0] == "cmp":
+                    a, b = term(v[2]), term(v[3])
+                    if a is None or b is None:
+                        return None
+                    c = {"Eq": a == b, "Ne": a != b}.get(v[1])
+                    if c is None:
+                        return None
+                    return z3.Not(c) if exp == 0 else c
+                t = term(v)
+                if t is None:
+                    return None
+                if isinstance(exp, int):
+                    return t == z3.BitVecVal(exp, 64)
+                return z3.And([t != z3.BitVecVal(k, 64) for k in exp[1]])
+            merge_paths = 0
+            bad = []
+            for pth in paths:
+                stores = [it for it in pth if it[0] == "N" and it[1] == "PLAIN_W"]
+                grew = any(it[0] == "G" for it in pth) and any("self" in repr(it) or True for it in stores) and len(stores) > 0
+                # a merge path is one that writes self's fields (len/cap): detected by assignments into the self aggregate
+                if not getattr(w, "self_writes", None):
+                    pass
+                conds = [cond(it) for it in pth if it[0] == "G"]
+                conds = [c for c in conds if c is not None]
+                returns_ok = any(it[0] == "G" for it in pth)
+                # classify by the returned discriminant: Ok(()) paths after the adjacency test are merge paths
+                touched = any(it[0] == "G" and "data" in repr(it[1]) for it in pth)
+                if not touched:
+                    continue
+                merge_paths += 1
+                sol = z3.Solver()
+                sol.add(conds)
+                sol.add(z3.Or(zs["self.data"] & 1 == 1, zs["other.data"] & 1 == 1))
+                # only paths on which the data words were found EQUAL are merges
+                eq_seen = any(it[0] == "G" and it[1][0] == "cmp" and it[1][1] == "Eq" and "self.data" in repr(it[1]) and "other.data" in repr(it[1]) and it[2] != 0 for it in pth)
+                if not eq_seen:
+                    merge_paths -= 1
+                    continue
+                rep["obligations"] += 1
+                if sol.check() == z3.sat:
+                    bad.append(mirsym.fmt_path(pth))
+                else:
+                    rep["discharged"] += 1
+            rep["nontrivial"] += 1 if merge_paths else 0
+            rep["samples"].append({"try_unsplit_paths": len(paths), "merge_paths": merge_paths, "merge_reachable_for_inline_vec_handles": len(bad)})
+            if merge_paths == 0 and paths:
+                rep["inconclusive"].append("try_unsplit: no path with the data-equality test found (skeleton changed?)")
+            if bad:
+                os.makedirs("/verif/replays/C04", exist_ok=True)
+                fn = "/verif/replays/C04/try_unsplit_merge.txt"
+                open(fn, "w").write("try_unsplit: the zero-copy merge is reachable although one of the handles is in the inline-Vec form\n(two inline-Vec handles never share an allocation; with adjacent allocations the merged region spans two of them):\n" + "\n".join(bad) + "\n")
+                rep["violations"].append(("try_unsplit: zero-copy merge reachable for inline-Vec handles (path condition satisfiable with data & 1 == 1)", fn))
     if prop == "C03":
         # CFG fact in from_owner
         cands = [f for n, f in funcs.items() if n.endswith("::from_owner")]
@@ -164,5 +249,9 @@ def run(prop, tier, seed):
 
 
 if __name__ == "__main__":
-    for r in run(sys.argv[1], "quick", 0):
-        print(json.dumps(r, indent=1)[:3000])
+    reps = run(sys.argv[1], sys.argv[2] if len(sys.argv) > 2 else "quick", 0)
+    if "--json" in sys.argv:
+        print(json.dumps(reps))
+    else:
+        for r in reps:
+            print(json.dumps(r, indent=1)[:3000])
